@@ -10,15 +10,15 @@ cp $OUT/patch.diff $OUT/demo.py $DST/ 2>/dev/null
 LOG=$DST/confirm.log; : > $LOG
 cd $WT
 git checkout -q -- . ; git stash list >/dev/null
-cp $OUT/demo.py $WT/demo_seed.py
+cp $OUT/demo.py $WT/demo.py
 echo "## demo on unchanged tree" >> $LOG
-timeout 1200 /venv/bin/python demo_seed.py >> $LOG 2>&1; rc_clean=$?
+timeout 1200 /venv/bin/python demo.py >> $LOG 2>&1; rc_clean=$?
 echo "rc=$rc_clean" >> $LOG
 git apply $OUT/patch.diff || { echo "patch does not apply" >> $LOG; exit 2; }
 echo "## demo on changed tree" >> $LOG
-timeout 1200 /venv/bin/python demo_seed.py >> $LOG 2>&1; rc_seed=$?
+timeout 1200 /venv/bin/python demo.py >> $LOG 2>&1; rc_seed=$?
 echo "rc=$rc_seed" >> $LOG
-rm -f $WT/demo_seed.py
+rm -f $WT/demo.py
 echo "## baseline on changed tree" >> $LOG
 VERIF_REPO=$WT timeout 1500 /venv/bin/python /verif/tools/baseline.py >> $LOG 2>&1; rc_base=$?
 echo "rc=$rc_base" >> $LOG
